@@ -197,7 +197,8 @@ def inject_fault(rng, c, key):
             body = b"\x03\xe8" + b"r" * (n - 2)
         ins = [frame(8, body, key=key())]
     elif f == "close-code":
-        code = rng.choice(BAD_CODES + GRAY_CODES + VALID_CODES + [rng.randint(0, 65535)])
+        code = rng.choice(BAD_CODES) if rng.random() < 0.4 else \
+            rng.choice(GRAY_CODES + VALID_CODES + [rng.randint(0, 65535), 2999, 3000, 4999, 5000])
         ins = [frame(8, code.to_bytes(2, "big") + rng.choice([b"", b"x"]), key=key())]
     elif f == "close-utf8":
         ins = [frame(8, (1000).to_bytes(2, "big") + rng.choice(BAD_UTF8 + GOOD_UTF8), key=key())]
